@@ -88,7 +88,7 @@ Definition check (c : case) : bool :=
   match c with
   | CHist env steps admins binds pending => check_hist env steps admins binds pending
   | CDeliver kind auth g signers creator fields ext biz o_ante o_ok o_touched =>
-    match find_spec kind Gen.C03.specs with
+    match find_spec kind (Gen.C03.specs ++ Gen.C03.wasm_specs) with
     | None => false
     | Some spec =>
       let m := MkMsg signers creator fields ext in
